@@ -102,13 +102,13 @@ package gorm
 
 //@ # ---------- chain methods write only memory allocated by the call (C06) ----------
 //@ # the logger is a plug-in: it is assumed to read what it is given and to write nothing the library looks at again
-//@ iface Interface.Info(recv, ctx, msg, data)
+//@ iface gorm.io/gorm/logger.Interface.Info(recv, ctx, msg, data)
 //@   abstract logger plug-in; assumed to leave the library's memory alone
 //@   pure
-//@ iface Interface.Warn(recv, ctx, msg, data)
+//@ iface gorm.io/gorm/logger.Interface.Warn(recv, ctx, msg, data)
 //@   abstract logger plug-in; assumed to leave the library's memory alone
 //@   pure
-//@ iface Interface.Error(recv, ctx, msg, data)
+//@ iface gorm.io/gorm/logger.Interface.Error(recv, ctx, msg, data)
 //@   abstract logger plug-in; assumed to leave the library's memory alone
 //@   pure
 //@ iface ErrorTranslator.Translate(recv, err)
